@@ -184,7 +184,7 @@ def _run(ctx, current, mon):
         # ---- isotropic limit -----------------------------------------------------------------------
         if cls == "equal":
             c11 = canon_i[(1, 1)]
-            s = numpy.abs(c11).max() + 1e-300
+            s = scale          # tensor scale (max over all 21 components): c11 itself can vanish (e.g. one atom, Gamma only)
             want = {}
             for p in ALL21:
                 k = T.classify(*p)
